@@ -212,10 +212,10 @@ fn write_replay(rf: &ReplayFile, name: &str) -> PathBuf {
 
 pub fn main_run(args: &[String]) -> i32 {
     let prop = arg(args, "--prop").expect("--prop").to_string();
-    let tier = std::env::var("VERIF_TIER")
-        .ok()
+    let tier = arg(args, "--tier")
+        .map(|s| s.to_string())
+        .or_else(|| std::env::var("VERIF_TIER").ok())
         .filter(|t| t == "quick" || t == "thorough")
-        .or_else(|| arg(args, "--tier").map(|s| s.to_string()))
         .unwrap_or_else(|| "quick".into());
     let seed: u64 = arg(args, "--seed").and_then(|s| s.parse().ok()).unwrap_or_else(env_seed);
     let workers: u64 = arg(args, "--workers").and_then(|s| s.parse().ok()).unwrap_or(16);
